@@ -1,7 +1,7 @@
 (* C13 - proofs, part 4: equivariance of the diag M-step (per component and
    axis) and of guess_regularizing under translation and per-axis scaling. *)
 From Coq Require Import List Bool ZArith QArith Qabs Lia Lqa Setoid.
-From NV.Generated Require Import MrfTables.
+From NV.Generated Require Import MrfTables GmmFrags.
 From NV.C13 Require Import Model Proofs1.
 Import ListNotations.
 Open Scope Q_scope.
@@ -111,33 +111,12 @@ Section Equivariance.
     unfold Qdiv. rewrite !Qmult_1_l. rewrite Qinv_mult_distr. ring.
   Qed.
 
-  (* the all-axes term: translating every axis (by its own t_j) leaves it unchanged;
-     scaling every axis by the SAME c multiplies it by c^2 *)
-  Fixpoint shift_cols (ts : list Q) (cols : list (list Q)) : list (list Q) :=
-    match ts, cols with
-    | t :: ts', xs' :: cols' => shift t xs' :: shift_cols ts' cols'
-    | _, _ => []
-    end.
+  (* the per-axis term of the current code *)
+  Lemma asq_axis_translate m0 t : asq_axis tiny (m0 + t) r (shift t xs) == asq_axis tiny m0 r xs.
+  Proof. unfold asq_axis. rewrite (ms_empmean_translate t). ring. Qed.
 
-  Lemma ms_addsq_translate ts : forall pm cols, length pm = length ts ->
-    Forall (fun c => length r = length c) cols ->
-    ms_addsq tiny r (qadd2 pm ts) (shift_cols ts cols) == ms_addsq tiny r pm cols.
-  Proof.
-    induction ts as [|t1 ts IH]; intros [|m0 pm] [|c cols] HL HF; simpl in *; try reflexivity; try discriminate.
-    inversion HF as [|? ? Hc HF']; subst.
-    assert (E : ms_empmean tiny r (shift t1 c) == ms_empmean tiny r c + t1).
-    { unfold ms_empmean. rewrite (qmaxb_ge _ _ populated). rewrite qdot_shift by exact Hc. field. lra. }
-    rewrite E, (IH pm cols) by (try assumption; injection HL; auto). ring.
-  Qed.
-
-  Lemma ms_addsq_uniform_scale c : forall pm cols,
-    ms_addsq tiny r (scale c pm) (map (scale c) cols) == c * c * ms_addsq tiny r pm cols.
-  Proof.
-    induction pm as [|m0 pm IH]; intros [|xs' cols]; simpl; try ring.
-    assert (E : ms_empmean tiny r (scale c xs') == c * ms_empmean tiny r xs').
-    { unfold ms_empmean. rewrite (qmaxb_ge _ _ populated). rewrite qdot_scale. field. lra. }
-    rewrite E, IH. ring.
-  Qed.
+  Lemma asq_axis_scale m0 c : asq_axis tiny (c * m0) r (scale c xs) == c * c * asq_axis tiny m0 r xs.
+  Proof. unfold asq_axis. rewrite (ms_empmean_scale c). ring. Qed.
 End Equivariance.
 
 (* ------------------------------------------------------------------ guess_regularizing *)
@@ -215,3 +194,63 @@ Proof. ring. Qed.
 Lemma quad_axis_scale (p m x c : Q) : ~ c == 0 ->
   (p / (c * c)) * (c * m - c * x) * (c * m - c * x) == p * (m - x) * (m - x).
 Proof. intros Hc. field. assumption. Qed.
+
+(* ------------------------------------------------------------------ M-step with the prior from guess_regularizing *)
+Lemma ms_mean_proper small m0 m0' r xs : m0 == m0' -> ms_mean small m0 r xs == ms_mean small m0' r xs.
+Proof. intros E. unfold ms_mean. rewrite E. reflexivity. Qed.
+
+Lemma asq_axis_proper tiny m0 m0' r xs : m0 == m0' -> asq_axis tiny m0 r xs == asq_axis tiny m0' r xs.
+Proof. intros E. unfold asq_axis. rewrite E. reflexivity. Qed.
+
+Lemma ms_prec_proper small tiny a a' s s' dof0 dim r xs : a == a' -> s == s' ->
+  ms_prec small tiny a s dof0 dim r xs == ms_prec small tiny a' s' dof0 dim r xs.
+Proof. intros Ea Es. unfold ms_prec, ms_cov. rewrite Ea, Es. reflexivity. Qed.
+
+(* one component, one axis of the current diag M-step, prior taken from the same data column *)
+Definition fit_mean (small : Q) (r xs : list Q) : Q := ms_mean small (gr_mean xs) r xs.
+Definition fit_prec (small tiny KF dof0 dim : Q) (r xs : list Q) : Q :=
+  ms_prec small tiny (asq_axis tiny (gr_mean xs) r xs) (gr_scale KF xs) dof0 dim r xs.
+
+Section WithPrior.
+  Variables (small tiny KF dof0 dim : Q) (r xs : list Q).
+  Hypothesis small_pos : 0 < small.
+  Hypothesis tiny_pos : 0 < tiny.
+  Hypothesis r_nonneg : nonneg r.
+  Hypothesis r_len : length r = length xs.
+  Hypothesis populated : tiny <= qsum r.
+  Hypothesis xs_ne : xs <> [].
+
+  Lemma fit_mean_translate t : fit_mean small r (shift t xs) == fit_mean small r xs + t.
+  Proof.
+    unfold fit_mean. rewrite (ms_mean_proper _ _ _ _ _ (gr_mean_translate xs t xs_ne)).
+    apply ms_mean_translate; assumption.
+  Qed.
+
+  Lemma fit_mean_scale c : fit_mean small r (scale c xs) == c * fit_mean small r xs.
+  Proof.
+    unfold fit_mean. rewrite (ms_mean_proper _ _ _ _ _ (gr_mean_scale xs c)).
+    apply ms_mean_scale; assumption.
+  Qed.
+
+  Lemma fit_prec_translate t :
+    fit_prec small tiny KF dof0 dim r (shift t xs) == fit_prec small tiny KF dof0 dim r xs.
+  Proof.
+    unfold fit_prec.
+    rewrite (ms_prec_proper small tiny _ (asq_axis tiny (gr_mean xs + t) r (shift t xs))
+               _ (gr_scale KF xs) dof0 dim r (shift t xs)).
+    - apply ms_prec_translate; try assumption. apply asq_axis_translate; assumption.
+    - apply asq_axis_proper. apply gr_mean_translate. assumption.
+    - apply gr_scale_translate. assumption.
+  Qed.
+
+  Lemma fit_prec_scale c : ~ c == 0 -> ~ gr_scale KF xs == 0 ->
+    fit_prec small tiny KF dof0 dim r (scale c xs) == fit_prec small tiny KF dof0 dim r xs / (c * c).
+  Proof.
+    intros Hc Hs. unfold fit_prec.
+    rewrite (ms_prec_proper small tiny _ (asq_axis tiny (c * gr_mean xs) r (scale c xs))
+               _ (gr_scale KF xs / (c * c)) dof0 dim r (scale c xs)).
+    - apply ms_prec_scale; try assumption. apply asq_axis_scale; assumption.
+    - apply asq_axis_proper. apply gr_mean_scale.
+    - apply gr_scale_scale.
+  Qed.
+End WithPrior.
